@@ -326,10 +326,14 @@ Definition c17_example_files : list vfile :=
       [YOAddComments (mkYOSel (Some "Foo.name") None None) ["the name"]];
       [YOAddAssignment (mkYOSel None (Some "FooCopy.both") None) (mkVAssignment "name" "direct" (VValue None (DStr "c") None))];
       [YOOmit (mkYOSel None (Some "FooCopy.more") None)]]].
+Definition c17_example_summary (bs : list builder) :=
+  map (fun b => (b_name b, map op_name (b_options b), List.length (ct_assignments (b_ctor b)), List.length (b_factories b))) bs.
+Definition c17_example_lrs : list language_rules := match rewriter_from c17_example_files with Ok l => l | _ => [] end.
+Definition c17_example_out : list builder := match apply_to w_schemas c17_example_files "go" w_before with Ok l => l | _ => [] end.
 Example c17_nonvacuous :
-  exists lrs bs', rewriter_from c17_example_files = Ok lrs /\ wt_safe_rules lrs = true /\
-              apply_to w_schemas c17_example_files "go" w_before = Ok bs' /\ WTs w_schemas bs' = true /\
-              frame_ok w_schemas lrs "go" w_before bs' = true /\
-              map (fun b => (b_name b, map op_name (b_options b), List.length (ct_assignments (b_ctor b)), List.length (b_factories b))) bs'
-              = [("Foo", ["tags"; "more"; "name"; "labels"], 0, 0); ("FooCopy", ["withTags"; "labels"; "both"], 1, 1)].
-Proof. do 2 eexists. vm_compute. repeat split. Qed.
+  rewriter_from c17_example_files = Ok c17_example_lrs /\ wt_safe_rules c17_example_lrs = true /\
+  apply_to w_schemas c17_example_files "go" w_before = Ok c17_example_out /\ WTs w_schemas c17_example_out = true /\
+  frame_ok w_schemas c17_example_lrs "go" w_before c17_example_out = true /\
+  c17_example_summary c17_example_out
+  = [("Foo", ["tags"; "more"; "name"; "labels"], 0, 0); ("FooCopy", ["withTags"; "labels"; "both"], 1, 1)].
+Proof. repeat split; vm_compute; reflexivity. Qed.
